@@ -29,6 +29,7 @@ EXPLANATION = (
     " R2 also requires the element predicate to catch every exception (broad handler) and the failure-case report to keep nulls (reshape_failure_cases(..., ignore_na=False)). " 
     "NOT decided: everything value-level - exactness, idempotence, agreement of coerce/coerce_value/check."
     ' (R11) in the coercion functions of the pandas backends no dtype-dropping accessor (.values, .to_numpy(), .tolist()) is applied outside the pyspark.pandas guard (zero-count rule with a positive self-test).'
+    ' (R12) in the polars engine a function that null-tests the result of a non-strict cast also consults the null mask of the un-cast input, so elements that were null already are not coercion failures.'
 )
 LEVEL_RULE = "one obligation per try_coerce implementation / helper / schema-level site / coerce method / operator"
 FLOORS = {"R1": 4, "R2": 4, "R3": 4, "R4": 20, "R5": 1, "R6": 2, "R7": 2, "R8": 1, "R9": 1, "R10": 2}
@@ -582,6 +583,62 @@ def r11_coerced_data_keeps_its_dtype(ctx, ix=None):
         ctx.stats["dtype_dropping_accessors_in_coercion"] = n
 
 
+def _receiver_chain(e):
+    """the calls / attributes an expression is chained on (`a.b(x).c(y)` -> a.b(x).c(y), a.b(x), a.b, a), arguments excluded"""
+    while e is not None:
+        yield e
+        if isinstance(e, ast.Call):
+            e = e.func
+        elif isinstance(e, ast.Attribute):
+            e = e.value
+        else:
+            e = None
+
+
+def r12_polars_new_nulls_compare_with_the_input(ctx):
+    """polars finds the uncoercible elements by casting non-strictly and asking which results are null.  Every polars
+    dtype can hold null, so an element that was null *before* the cast is not a failure: the "coercible" mask has to
+    consult the null mask of the un-cast input as well (`is_null() | cast(strict=False).is_not_null()`).  Without it
+    Column(pl.Int64, nullable=True, coerce=True) blames the None in ["1", None, "x"] and drop_invalid_rows deletes that
+    valid row."""
+    m = ctx.ix.module("pandera/engines/polars_engine.py")
+    n = 0
+    for f in m.all_functions:
+        casts = [c for c in calls_in(f.node) if callee_last(c) == "cast" and any(k.arg == "strict" and isinstance(k.value, ast.Constant) and k.value.value is False
+                                                                                  for k in c.keywords)]
+        if not casts:
+            continue
+        null_tests = [c for c in calls_in(f.node) if callee_last(c) in ("is_not_null", "is_null")]
+        if not null_tests:
+            continue
+        n += 1
+        ctx.touched(f)
+
+        def over_cast(c):
+            # is the null test applied to (something derived from) the non-strict cast?
+            recv = c.func.value if isinstance(c.func, ast.Attribute) else None
+            if recv is not None and any(x in casts for x in _receiver_chain(recv)):
+                return True
+            # `<frame>.cast(strict=False).select(pl.col(key).is_not_null())`: the test sits in a select on the cast frame
+            p_, child = getattr(c, "_parent", None), c
+            while p_ is not None and not isinstance(p_, ast.stmt):
+                child_is_arg = isinstance(p_, ast.Call) and (child in p_.args or any(child is k.value for k in p_.keywords))
+                if isinstance(p_, ast.Call) and callee_last(p_) in ("select", "with_columns", "filter") and isinstance(p_.func, ast.Attribute) \
+                        and child_is_arg and any(x in casts for x in _receiver_chain(p_.func.value)):
+                    return True
+                child, p_ = p_, getattr(p_, "_parent", None)
+            return False
+        after = [c for c in null_tests if over_cast(c)]
+        before = [c for c in null_tests if not over_cast(c)]
+        ok = not after or bool(before)
+        ctx.ob("R12", f, f"{f.short}: null-after-the-cast is compared with null-before", ok,
+               "the input's null mask is consulted" if ok else
+               f"`{txt(after[0])[:60]}` alone decides coercibility: an element that is null in the input is reported as uncoercible "
+               "(pl.DataFrame({'a': ['1', None, 'x']}) with Column(pl.Int64, nullable=True, coerce=True): failure cases [None, 'x'])", f.loc(after[0] if after else casts[0]))
+    if n < 1:
+        raise AnalysisError("polars_engine: non-strict cast with a null test not found")
+
+
 def run(ctx):
     from ..defassign import check_modules
     check_modules(ctx, "R8", ('pandera/engines/',), "escapes coercion instead of a ParserError / coerced data")
@@ -594,5 +651,6 @@ def run(ctx):
     r9_polars_container_coverage(ctx)
     r10_coerce_accepts_an_index(ctx)
     r11_coerced_data_keeps_its_dtype(ctx)
+    r12_polars_new_nulls_compare_with_the_input(ctx)
     r7_identity_shortcut(ctx)
     ctx.assume("astype/cast of pandas/polars return new objects")
